@@ -367,6 +367,16 @@ def fold(node: ast.AST, env: Dict[str, Any]) -> Any:
         if node.id in ("True", "False", "None"):
             return {"True": True, "False": False, "None": None}[node.id]
         raise _Unfoldable(node.id)
+    if isinstance(node, ast.Attribute) and isinstance(node.value, ast.Name) and node.value.id == "math" and node.attr in ("inf", "nan", "pi", "e", "tau") \
+            and not dict.__contains__(env, "math"):
+        import math as _m
+        return getattr(_m, node.attr)
+    if isinstance(node, ast.Call) and isinstance(node.func, ast.Name) and node.func.id == "float" and not dict.__contains__(env, "float") and len(node.args) == 1 \
+            and not node.keywords and isinstance(node.args[0], ast.Constant) and isinstance(node.args[0].value, (str, int, float)):
+        try:
+            return float(node.args[0].value)
+        except ValueError:
+            raise _Unfoldable("float()")
     if isinstance(node, ast.Dict) and node.keys and all(k is not None or True for k in node.keys):
         # a table whose *values* are references to functions / classes (decoder tables): keep those as symbolic names
         out2 = {}
